@@ -106,7 +106,13 @@ fn worker(fd: Arc<File>, shared: Arc<Shared>) {
         assert!(matches!(&*s_guard, State::Started | State::Done(_)));
         drop(s_guard);
 
+        #[cfg(nomt_verif)]
+        let injected = crate::verif_hook::begin(crate::verif_hook::Kind::Fsync, std::os::fd::AsRawFd::as_raw_fd(&*fd), 0, 0, "fsyncer");
         let sync_result = fd.sync_all();
+        #[cfg(nomt_verif)]
+        crate::verif_hook::end(crate::verif_hook::Kind::Fsync, std::os::fd::AsRawFd::as_raw_fd(&*fd), 0, 0, "fsyncer");
+        #[cfg(nomt_verif)]
+        let sync_result = injected.and(sync_result);
 
         let mut s_guard = shared.s.lock();
         if matches!(&*s_guard, State::HandleDead) {
